@@ -181,6 +181,47 @@ def rand_input(rng, max_o=6, max_s=5):
     return {"data": data, "ot": ont, "st": snt, "leaf_species": leaf_species}
 
 
+def polytomise(rng, nt):
+    """Collapse one random internal non-root node of a name tree (its children join its parent)."""
+    edges = [(p, i) for p in pre(nt) for i, k in enumerate(p["k"]) if k["k"]]
+    if not edges:
+        return False
+    p, i = rng.choice(edges)
+    p["k"][i:i + 1] = p["k"][i]["k"]
+    return True
+
+
+def rand_multi_input(rng):
+    """A documented-format input with a polytomy in the object tree, the species tree, or both, leaf
+    syntenies present (only ext_spfs / superdtl accept non-binary inputs); ancestors named / partially named."""
+    import copy
+
+    while True:
+        gi = rand_input(rng, max_o=5, max_s=4)
+        if "leaf_syntenies" not in gi["data"]:
+            continue
+        gi = copy.deepcopy(gi)
+        which = rng.choice(["O", "S", "both"])
+        done = False
+        if which in ("O", "both"):
+            done |= polytomise(rng, gi["ot"])
+        if which in ("S", "both"):
+            done |= polytomise(rng, gi["st"])
+        if not done:
+            continue
+        if rng.random() < 0.6:
+            # make sure the ROOTS carry user names (a refinement re-serialises the trees: root labels are the
+            # first thing to go missing)
+            for nt, nm in ((gi["ot"], "rootO"), (gi["st"], "LUCA")):
+                if nt["k"] and not nt["n"]:
+                    nt["n"] = nm
+        gi["data"]["object_tree"] = newick(gi["ot"]) + ";"
+        gi["data"]["species_tree"] = newick(gi["st"]) + ";"
+        # consistent orders keep the ordered solver from answering "no solution" most of the time
+        gi["multi"] = True
+        return gi
+
+
 def rand_cost_args(rng):
     if rng.random() < 0.3:
         return []
@@ -295,10 +336,65 @@ def tree_facts(newick_text):
     )
 
 
+def clade_names(newick_text):
+    """{frozenset of leaf names below a node: (name, number of children)} of a Newick text."""
+    t = Tree(newick_text, format=1)
+    return {frozenset(l.name for l in n.iter_leaves()): (n.name, len(n.children)) for n in t.traverse()}
+
+
+def nt_clades(nt):
+    out = {}
+
+    def go(n):
+        if not n["k"]:
+            c = frozenset([n["n"]])
+        else:
+            c = frozenset().union(*[go(k) for k in n["k"]])
+        out[c] = n["n"]
+        return c
+
+    go(nt)
+    return out
+
+
+def check_refined_tree(key, text, nt, prefix):
+    """Multifurcating input: the output tree is a BINARY REFINEMENT of the input tree in which every node
+    the user named keeps its name (on the node with the same clade), all names are distinct and non-empty,
+    and every other internal node is called <prefix><number> (a name the input does not use)."""
+    try:
+        got = clade_names(text)
+    except Exception as e:  # noqa
+        return f"{key} does not parse: {type(e).__name__}"
+    names = [nm for nm, _ in got.values()]
+    if any(not n or n == "NoName" for n in names):
+        return f"{key} has an unnamed node: {text}"
+    if len(set(names)) != len(names):
+        return f"{key} has colliding names: {text}"
+    if any(k not in (0, 2) for _, k in got.values()):
+        return f"{key} is not binary: {text}"
+    want = nt_clades(nt)
+    given = {n for n in want.values() if n}
+    for clade, nm in want.items():
+        if clade not in got:
+            return f"{key}: the clade {sorted(clade)} of the input is not a clade of the output {text}"
+        if nm and got[clade][0] != nm:
+            return f"{key}: node named {nm!r} in the input is named {got[clade][0]!r} in the output {text}"
+    for clade, (nm, _) in got.items():
+        if not want.get(clade) and (not re.fullmatch(prefix + r"[0-9]+", nm) or nm in given):
+            return f"{key}: generated name {nm!r} is not a fresh {prefix}<number>: {text}"
+    return None
+
+
 def check_object(case, obj, mincost):
     """None or a description of how one output object breaks the property."""
     inp = obj.get("input", {})
-    for key, nt, prefix in (("object_tree", case["ot"], "O"), ("species_tree", case["st"], "S")):
+    if case.get("multi"):
+        for key, nt, prefix in (("object_tree", case["ot"], "O"), ("species_tree", case["st"], "S")):
+            bad = check_refined_tree(key, inp.get(key, ""), nt, prefix)
+            if bad:
+                return bad
+    for key, nt, prefix in (() if case.get("multi") else
+                            (("object_tree", case["ot"], "O"), ("species_tree", case["st"], "S"))):
         try:
             names, arity, colours = tree_facts(inp[key])
         except Exception as e:  # noqa
@@ -555,6 +651,17 @@ def run(ctx, res):
                                   "solutions": solutions, "results": o["lines"]},
                                  {"call": model_call(algo, kind == "syn", solutions, o),
                                   "status": o["status"], "mincost": o["mincost"], "lines": o["lines"]}))
+        # multifurcating inputs through the two algorithms that accept them
+        for _ in range(ctx.budget(25, 250)):
+            gi = rand_multi_input(rng)
+            cost_args = rand_cost_args(rng)
+            for algo in ("ext_spfs", "superdtl"):
+                case = {**gi, "algo": algo, "cost_args": cost_args}
+                bad, obs = check_case(case, tmp, draw_budget=1)
+                res.case({k: case[k] for k in ("data", "algo", "cost_args")}, True, n=2)
+                res.dist[f"{algo}/multifurcating"] += 1
+                if bad:
+                    res.violation(bad, case)
         subprocess_checks(res, tmp)
     for _ in range(ctx.budget(400, 5000)):
         t, st, ot = adversarial_label(rng)
